@@ -526,8 +526,12 @@ class Directory(object):
                                 ' an computation %s ', subscriber, computation)
 
     def register_replica(self, replica: ComputationName, agent: AgentName):
-        self.discovery.register_replica(
-            replica, agent, publish=False)
+        try:
+            self.discovery.register_replica(
+                replica, agent, publish=False)
+        except UnknownComputation:
+            self.logger.warning('Replica for unknown computation %s', replica)
+            return
         for interested in self._subscription_replicas[replica]:
             self.directory_computation.notify_replica_registered(
                 interested, replica, agent)
